@@ -232,3 +232,56 @@ func VerifC13StepMustBump() {
 }
 
 var _ = fmt.Sprint
+
+// VerifC13Reader: a concurrent reader of one of the driver's single-
+// transaction getters (Stats, GetNodeBalance, NodePeers) while a mutating
+// operation is in progress sees the state before the operation or the state
+// after all of it - never a half-applied multi-key operation (a trial balance
+// already removed but not yet merged, a link without its balance record).
+func VerifC13Reader() {
+	ids := []store.NodeID{store.NodeID(verifapi.NodeID(0)), store.NodeID(verifapi.NodeID(1))}
+	accts := []store.Account{store.Account(verifapi.Wallet(0)), store.Account(verifapi.Wallet(1))}
+	t0 := verifapi.Time("t0")
+	verifapi.SetNow(t0)
+	flags := []bool{true, true, true, verifapi.Bool("credited1")}
+	credits := []*big.Int{verifapi.BigInt("credit0"), verifapi.BigInt("credit1")}
+	links := []int{verifapi.Choose("link0", 3), verifapi.Choose("link1", 3)}
+	main, twin := verifOpen(), verifOpen()
+	verifC13Setup(main, ids, accts, t0, flags, credits, links, true)
+	verifC13Setup(twin, ids, accts, t0, flags, credits, links, true)
+	k := 1 + verifapi.Choose("op", 4) // UpdateNodePeers, AddNodeBalance, AddAccountBalance, AddAccountNode
+	id := ids[verifapi.Choose("id", 2)]
+	a := accts[verifapi.Choose("acct", 2)]
+	amount := verifapi.BigInt("amount")
+	rid := ids[verifapi.Choose("reader.id", 2)]
+	which := verifapi.Choose("reader", 3)
+	read := func(s *badgerStore) verifapi.Snap {
+		switch which {
+		case 0:
+			st, err := s.Stats()
+			return verifapi.Snapshot([]interface{}{st.NumTotalHosts, st.NumTotalClients, st.TotalCredit, st.NumTrialBalances, st.LatestBlockNumber, err == nil})
+		case 1:
+			b, err := s.GetNodeBalance(rid)
+			return verifapi.Snapshot([]interface{}{b, err == nil})
+		}
+		ps, err := s.NodePeers(rid)
+		set := map[store.NodeID]bool{}
+		for _, p := range ps {
+			set[p.ID] = true
+		}
+		return verifapi.Snapshot([]interface{}{set, err == nil})
+	}
+	pre := read(main)
+	verifC13Op(twin, k, ids, accts, id, a, amount, 0)
+	post := read(twin)
+	done := make(chan struct{})
+	go func() {
+		verifC13Op(main, k, ids, accts, id, a, amount, 0)
+		close(done)
+	}()
+	seen := read(main)
+	<-done
+	verifapi.Reach("c13.reader")
+	verifapi.Assert(verifapi.Same(seen, pre) || verifapi.Same(seen, post), "c13.reader-sees-pre-or-post-state")
+	verifapi.Assert(verifapi.Same(read(main), post), "c13.reader-final-state")
+}
